@@ -32,7 +32,7 @@ def collectProviderDistribution (rowanPd : Dec) (poolUnits : Nat) (lps : List LP
   let cap ← Uint.ofInt rowanPd.roundInt
   collectLoop rowanPd cap poolUnits lps 0 []
 
-def lpsOf (s : St) (sym : String) : List LP := (s.lps.filter (fun e => e.2.sym = sym)).map (·.2)
+def lpsOf (s : St) (sym : String) : List LP := (s.lpsOf sym).map (·.2)
 
 /-- a planned payout: pool symbol, provider address, amount -/
 abbrev Payout := String × String × Nat
@@ -135,7 +135,7 @@ def rewardTuples (rp : RewardPeriod) (td : Dec) (bd : Nat) : List (String × Poo
         rewardTuples rp td bd rest (remaining - pd') (mint + pd') ((p.sym, pd') :: acc)
 
 def resetRpnd (s : St) : St :=
-  { s with pools := s.pools.map (fun (k, p) => (k, { p with rpnd := 0 })) }
+  { s with pools := s.pools.map (fun e => (e.1, { e.2 with rpnd := 0 })) }
 
 def addRewardToPool (s : St) (sym : String) (amt : Nat) : M St :=
   match s.pools.get (poolKey sym) with
@@ -171,16 +171,24 @@ def distributeRewards (s : St) (tuples : List (String × Nat)) (pre : Nat) : M S
   let diff ← Uint.sub post pre
   pure (s2.setBal clpAcct rowan (post - diff))
 
+/-- the minting half of `DistributeDepthRewards` (positive total depth) -/
+def distributeTuples (s0 : St) (rp : RewardPeriod) (td : Dec) (bd : Nat) : M St := do
+  let (tuples, mint) ← rewardTuples rp td bd s0.pools bd 0 []
+  let pre := s0.bal clpAcct rowan
+  let s1 := s0.setBal clpAcct rowan (pre + mint)
+  if rp.distribute then distributeRewards s1 tuples pre else accumulateRewards s1 tuples
+
+/-- at the first block of a period the per-period counters of every pool are reset -/
+def startReset (s : St) (rp : RewardPeriod) : St := if s.height = (rp.start : Int) then resetRpnd s else s
+
+def afterDepth (s0 : St) (rp : RewardPeriod) (td : Dec) (bd : Nat) : M St :=
+  if td.i ≤ 0 then .ok s0 else distributeTuples s0 rp td bd
+
 /-- `DistributeDepthRewards` -/
 def distributeDepthRewards (s : St) (rp : RewardPeriod) (bd : Nat) : M St :=
   if bd = 0 then .ok s else do
     let td ← totalDepth rp s.pools Dec.zero
-    let s0 := if s.height = (rp.start : Int) then resetRpnd s else s
-    if td.i ≤ 0 then pure s0 else do
-      let (tuples, mint) ← rewardTuples rp td bd s0.pools bd 0 []
-      let pre := s0.bal clpAcct rowan
-      let s1 := s0.setBal clpAcct rowan (pre + mint)
-      if rp.distribute then distributeRewards s1 tuples pre else accumulateRewards s1 tuples
+    afterDepth (startReset s rp) rp td bd
 
 /-- `CalcBlockDistribution`: allocation / (end − start + 1) in uint64 arithmetic -/
 def blockDistribution (rp : RewardPeriod) : M Nat :=
@@ -220,64 +228,69 @@ def subBucket (s : St) (denom : String) (amt : Nat) : Option St :=
 /-- `DistributeLiquidityProviderRewards` (as repaired by fix F1): the bucket is debited first, which
     checks that it holds the amount; then the coins are sent; a failed send returns the amount to
     the bucket.  Errors are logged and swallowed by the hook. -/
-def payToWallet (s : St) (lp : LP) (amt : Nat) : St :=
-  match subBucket s lp.sym amt with
+def payToWallet (s : St) (sym addr : String) (amt : Nat) : St :=
+  match subBucket s sym amt with
   | none => s
   | some s1 =>
-    match sendFromModule s1 lp.addr lp.sym amt with
+    match sendFromModule s1 addr sym amt with
     | some s2 => s2
     | none => s
 
-/-- `AddRewardAmountToLiquidityPool` -/
-def reinvest (s : St) (lp : LP) (amt : Nat) : M St :=
-  match s.pools.get (poolKey lp.sym) with
-  | none => .ok s
-  | some pool => do
+/-- `AddRewardAmountToLiquidityPool`.  The hook holds a copy of the provider record read when it
+    started; store keys are unique and no earlier iteration writes this key, so the copy equals the
+    stored record, which is what the model reads. -/
+def reinvest (s : St) (sym addr : String) (amt : Nat) : M St :=
+  match s.getPool sym, s.getLP sym addr with
+  | some pool, some lp => do
     let (nD, eD) ← pool.depths
-    let u ← calculatePoolUnits pool.units nD eD 0 amt (feeRate s.params rowan) (feeRate s.params lp.sym) s.params.r
+    let u ← calculatePoolUnits pool.units nD eD 0 amt (feeRate s.params rowan) (feeRate s.params sym) s.params.r
     match u with
     | none => pure s
     | some u => do
       let eB ← Uint.add pool.eBal amt
-      match subBucket s lp.sym amt with
+      match subBucket s sym amt with
       | none => pure s
       | some s1 => do
-        -- the hook writes back its own copy of the provider record (read at the start of the hook)
         let lu ← Uint.add lp.units u.lpUnits
-        pure { s1 with pools := s1.pools.set (poolKey lp.sym) { pool with units := u.poolUnits, eBal := eB },
-                       lps := s1.lps.set (lpKey lp.sym lp.addr) { lp with units := lu } }
+        pure ((s1.setPool { pool with sym := sym, units := u.poolUnits, eBal := eB }).setLP
+                { sym := sym, addr := addr, units := lu, lastUpdated := lp.lastUpdated })
+  | _, _ => .ok s
 
-/-- reward amounts: ⌊ rnd18(u_i / U) · bucket ⌋ -/
-def rewardAmounts (lps : List LP) (bucket : Nat) : M (List (LP × Nat)) := do
-  let total := lps.foldl (fun a lp => a + lp.units) 0
+/-- reward amounts: ⌊ rnd18(u_i / U) · bucket ⌋ per eligible provider (address, amount) -/
+def rewardAmounts (lps : List (String × LP)) (bucket : Nat) : M (List (String × Nat)) := do
+  let total := lps.foldl (fun a e => a + e.2.units) 0
   -- fix F16: no eligible provider holds a unit ⇒ every share is zero (the division would panic)
-  if total = 0 then pure (lps.map (fun lp => (lp, 0))) else
-  lps.mapM (fun lp => do
-    let sh ← (Dec.ofNat lp.units).quo (Dec.ofNat total)
+  if total = 0 then pure (lps.map (fun e => (e.1, 0))) else
+  lps.mapM (fun e => do
+    let sh ← (Dec.ofNat e.2.units).quo (Dec.ofNat total)
     let a ← sh.mulInt bucket
-    pure (lp, a.truncateInt.toNat))
+    pure (e.1, a.truncateInt.toNat))
+
+def payOne (sym : String) (s : St) (e : String × Nat) : M St :=
+  if s.params.rewardsDistribute then pure (payToWallet s sym e.1 e.2) else reinvest s sym e.1 e.2
+
+def bumpRae (s : St) (sym : String) (bucket : Nat) : M St :=
+  match s.pools.get (poolKey sym) with
+  | none => pure s
+  | some p => do
+    let rae ← Uint.add p.rae bucket
+    pure { s with pools := s.pools.set (poolKey sym) { p with rae := rae } }
 
 /-- one asset of `AfterEpochEnd` -/
 def epochAsset (s : St) (sym : String) : M St :=
   match s.buckets.get sym with
   | none => .ok s
-  | some bucket => do
-    let lps := (lpsOf s sym).filter (eligible s)
+  | some bucket =>
+    let lps := (s.lpsOf sym).filter (fun e => eligible s e.2)
     match lps with
-    | [] => pure s
+    | [] => .ok s
     | _ => do
       let amts ← rewardAmounts lps bucket
-      let s1 ← amts.foldlM (fun s (lp, amt) =>
-        if s.params.rewardsDistribute then pure (payToWallet s lp amt) else reinvest s lp amt) s
-      match s1.pools.get (poolKey sym) with
-      | none => pure s1
-      | some p => do
-        let rae ← Uint.add p.rae bucket
-        pure { s1 with pools := s1.pools.set (poolKey sym) { p with rae := rae } }
+      let s1 ← amts.foldlM (payOne sym) s
+      bumpRae s1 sym bucket
 
 /-- `AfterEpochEnd` for the rewards epoch identifier: every asset that has eligible providers -/
 def afterEpochEnd (s : St) : M St :=
-  let syms := (s.lps.foldl (fun (acc : AList Unit) e => acc.set e.2.sym ()) []).keys
-  syms.foldlM epochAsset s
+  s.lps.keys.foldlM epochAsset s
 
 end Sif.Clp
